@@ -159,6 +159,27 @@ def operator_grammar(rnd, nlev=None):
     return dict(terms=terms, nonterms=nonterms, precs=precs, rules=rules, start=0, operator=True)
 
 
+def wide_operator_grammar(rnd, nfill=62, nops=7):
+    """expr : expr op expr | '(' expr ')' | K00 | K01 | ...  : more than 64 terminals, the operator tokens sort last (symbol numbers
+    beyond a machine word's worth of bits), with precedence levels of every kind; every cell of the operator rows is a resolved conflict."""
+    terms = [dict(name='K%02d' % i, lit=None, tag='v0', num=None, declared=True) for i in range(nfill)]
+    for i in range(nops):
+        terms.append(dict(name='zop%d' % i, lit=None, tag='', num=None, declared=False))
+    terms.append(dict(name='lp', lit='(', tag='', num=None, declared=False))
+    terms.append(dict(name='rp', lit=')', tag='', num=None, declared=False))
+    nlev = rnd.randint(2, 4)
+    levels = [[] for _ in range(nlev)]
+    for i in range(nops):
+        levels[rnd.randrange(nlev)].append(nfill + i)
+    kinds = ['nonassoc'] + [rnd.choice(['left', 'right', 'nonassoc']) for _ in range(nlev)]
+    precs = [(kinds[k], lv) for k, lv in enumerate(levels) if lv]
+    rules = [dict(lhs=0, rhs=[('n', 0), ('t', nfill + i), ('n', 0)], prec=None, c=i % 10, coef=[3, 0, 7]) for i in range(nops)]
+    rules.append(dict(lhs=0, rhs=[('t', nfill + nops), ('n', 0), ('t', nfill + nops + 1)], prec=None, c=0, coef=[0, 1, 0]))
+    for i in range(nfill):
+        rules.append(dict(lhs=0, rhs=[('t', i)], prec=None, c=i % 10, coef=[1]))
+    return dict(terms=terms, nonterms=[dict(name='expr', tag='v0')], precs=precs, rules=rules, start=0, operator=True, big=True)
+
+
 def dup_rule_grammar(rnd):
     """A usable grammar in which one production is written twice (a pasted alternative), with productions after the copy."""
     while True:
